@@ -10,7 +10,9 @@ ASSUMPTIONS = [
     "the hash is re-expressed in toy form for the run (H x = tag :: x): the driver maps a stored hex SHA-256 back to the candidate pre-image it is the hash of (pw||0||name, name||0||pw, pw||name, pw, pw||0), so a wrong pre-image or a skipped hash shows up as a difference",
     "store-then-load and export-then-import equality are judged by the driver with proto.Equal (oracle, testing): for mierus:// links against the part of a profile such a link carries (name, user name, password, one server by domain name else IP, its bindings with canonically spelled ranges, mtu, multiplexing level, handshake mode, non-empty traffic pattern); domain names are drawn from host-name characters only (a domain name is not validated by mieru and is written unescaped into the link)",
     "validators (ValidateServerConfigSingleUser incl. the quota-days bound, ValidateServerConfigPatch / ValidateFullServerConfig, ValidateClientConfigSingleProfile / ValidateClientConfigPatch / ValidateFullClientConfig) are modelled as functions into 'number of the first failing group of checks' and compared on generated configurations and on every bound perturbed to both sides (VS VP VC VK cases); answers of time.ParseDuration, net.ParseCIDR, net.ParseIP, NormalizeDomainName and trafficpattern.Validate (another package, C16) are inputs recorded by the driver; bounds that are literals in the source (64-byte password, MTU 1280..1500, ports 1..65535, 1 s metrics interval) are recovered by dumpconsts from the validators' behaviour; multiplexing / handshake enums are not range-checked by any validator",
-    "C20_validated_link_roundtrip_partial: the library steps (url.String/url.Parse, base64, protobuf, strconv.Itoa, Enum.String and the *_value tables) are hypotheses 'decode (encode x) = x' (link_as_parsed is their composite); premise 'no binding carries both a port and a range' is necessary (C20_link_roundtrip_ambiguous_binding_refuted, replayed on the code in the report notes); an enum number outside the generated name table does not survive a link and is outside the theorem",
+    "C20_validated_link_roundtrip: the library steps (url.String/url.Parse, base64, protobuf, strconv.Itoa, Enum.String and the *_value tables) are hypotheses 'decode (encode x) = x' (link_as_parsed is their composite); since fix 04ca7f3 (exporter prefers the port, like FlatPortBindings) no premise on the bindings is needed (C20_validated_link_roundtrip; the old exporter is kept as export_server_v0 with C20_validated_link_roundtrip_refuted_before_fix, and {port: 2012, portRange: \"x\"} is the first corpus case); an enum number outside the generated name table does not survive a link and is outside the theorem",
+    "C20_validated_store_total is about the model's store (no error branch): the real StoreServerConfig can still fail in proto.Marshal on a string that is not valid UTF-8 (error, not panic; such strings cannot come from the JSON or protobuf parsers) and on file-system errors",
+    "the SetConfig RPC handler stores without validating (exercised by calling the handler directly with invalid configurations, results in the evidence notes): Load never panics on what it stored and Reload / Start re-validate and refuse; nothing is claimed about SetConfig beyond that run",
     "'can be started' is exercised only up to the construction of the client mux / the server's listening endpoints and traffic pattern (no sockets are opened)",
 ]
 
